@@ -51,7 +51,12 @@ MANIFEST = dict(
           "before Dequeue) hand every suspicious answer to the same search as a small projection of the burst's history; "
           "stack bursts on the copy-on-write list (one writer popping/pushing at the tail, readers in Range with a yielding "
           "callback) hand every traversal that is not strictly increasing to the search as the writer's overlapping calls "
-          "plus that traversal, from the list state before them."),
+          "plus that traversal, from the list state before them. "
+          " Event traces (driver area evtrace): an instrumented twin of the scratch copy logs every atomic load / CAS of the lock-free queue with pointer "
+          "identities, and every Lock/RLock/Unlock/RUnlock of ConcurrentList, CopyOnWriteArrayList and ConcurrentPriorityQueue with a snapshot of "
+          "the protected data, in an order that is a legal order of the real execution; the CLQ transition system and the generic RWMutex "
+          "model replay the log step by step (each load returns the node the model says, each CAS succeeds or fails as the model decides, "
+          "each lock step is enabled, snapshots and results equal the model's)."),
     note=COMMON_NOTE + (" Concurrency residue: sequential consistency of sync/atomic, unsafe.Pointer identity = node identity "
                         "(GC: no reuse while referenced), sync.RWMutex/sync.Mutex semantics and the atomicity of sync.Map's own "
                         "operations are definitions of the models (trusted). The heap inside ConcurrentPriorityQueue is a "
